@@ -24,6 +24,8 @@ pub enum Ins {
     PushLabelHigh(usize),
     /// PUSH32 (high + offset of label): a target with arbitrary high bits whose low bits name the label
     PushLabelPlus(usize, W),
+    /// PUSH2 (offset of the first label - offset of the second label), for PC-relative targets
+    PushLabelDiff(usize, usize),
 }
 
 pub const STOP: u8 = 0x00;
@@ -103,7 +105,7 @@ pub fn size_of(i: &Ins) -> usize {
     match i {
         Ins::Op(_) | Ins::Label(_) => 1,
         Ins::Push(b) => 1 + b.len(),
-        Ins::PushLabel(_) => 3,
+        Ins::PushLabel(_) | Ins::PushLabelDiff(_, _) => 3,
         Ins::Raw(b) => b.len(),
         Ins::PushData(_, b) => 1 + b.len(),
         Ins::Mark(_) => 0,
@@ -152,6 +154,14 @@ pub fn assemble(prog: &[Ins]) -> Vec<u8> {
             Ins::PushLabelHigh(l) => {
                 let t = labels.get(l).copied().unwrap_or(0xffff).min(0xffff);
                 out.extend_from_slice(&[0x64, 0x01, 0x00, 0x00, (t >> 8) as u8, t as u8]);
+            }
+            Ins::PushLabelDiff(a, b) => {
+                let ta = labels.get(a).copied().unwrap_or(0xffff).min(0xffff);
+                let tb = labels.get(b).copied().unwrap_or(0).min(0xffff);
+                let d = ta.wrapping_sub(tb) & 0xffff;
+                out.push(0x61);
+                out.push((d >> 8) as u8);
+                out.push(d as u8);
             }
             Ins::PushLabelPlus(l, high) => {
                 let t = labels.get(l).copied().unwrap_or(0xffff).min(0xffff);
